@@ -48,7 +48,7 @@ func ruleShortCopy(ctx *Ctx, rule string) {
 		return
 	}
 	n := 0
-	for _, b := range f.Blocks {
+	for _, b := range frameBlocks(f) {
 		for _, in := range b.Instrs {
 			call, ok := in.(*ssa.Call)
 			if !ok {
